@@ -306,19 +306,31 @@ fn snapshot<SP: aranya_runtime::StorageProvider>(r: &mut Replica<SP>) -> Result<
 }
 
 /// the state a (continuation) workload starts from: nothing, or a reopened crash image
-#[derive(Clone, Default)]
+#[derive(Clone)]
 struct Base {
     /// the control record `open` recovered (None: the file is freshly created)
     root: Option<RootT>,
     /// records that were intact below the recovered free offset
     records: Vec<(u64, Vec<u8>)>,
     snap: Option<Snap>,
+    /// false: the recovered state was not even readable on the live (uncrashed) file — only
+    /// possible for hand-edited / shrunk replays whose items dangle
+    api_ok: bool,
     sim: Sim,
     /// request / real-answer lines that bring the model driver into this state
     prefix_lines: Vec<(String, String)>,
 }
 
+impl Default for Base {
+    fn default() -> Self {
+        Base { root: None, records: vec![], snap: None, api_ok: true, sim: Sim::default(), prefix_lines: vec![] }
+    }
+}
+
 struct Case {
+    /// commits whose state is unreadable even without a crash (replays with dangling items):
+    /// the API read-back is not demanded for them
+    dangling: BTreeSet<usize>,
     graph: GraphId,
     calls: Vec<HiCall>,
     /// snapshot of the live storage taken while exactly `k` commits (of this case) had completed
@@ -411,7 +423,7 @@ fn record_workload(rec: &mut Recorder, rng: &mut Rng, root: &Path, size: usize) 
     drop(r);
     let _ = verif_io_log::stop();
     let calls = log.borrow().clone();
-    Case { graph, calls, snaps, base: Base::default() }
+    Case { dangling: BTreeSet::new(), graph, calls, snaps, base: Base::default() }
 }
 
 /// Continue on a reopened crash image: the image file is put into a fresh directory, opened with
@@ -454,7 +466,7 @@ fn record_continuation(rec: &mut Recorder, rng: &mut Rng, root: &Path, graph: Gr
     drop(r);
     let _ = verif_io_log::stop();
     let calls = log.borrow().clone();
-    Case { graph, calls, snaps, base }
+    Case { dangling: BTreeSet::new(), graph, calls, snaps, base }
 }
 
 // ------------------------------------------------------------------------------------- image check
@@ -584,6 +596,10 @@ fn check_image(cx: &mut Ctx, rec: &mut Recorder, sim: &Sim, ci: usize, k: usize,
                 }
             }
             // 3. read everything back through the storage API
+            if (j == 0 && !cx.case.base.api_ok) || cx.case.dangling.contains(&j) {
+                rec.count("readback:skipped_dangling_replay");
+                return verdict;
+            }
             let fm = FileManager::new(&dir).expect("FileManager on image dir");
             let mut r = Replica::new(LinearStorageProvider::new(fm), cx.case.graph);
             let got = vh::catch(std::panic::AssertUnwindSafe(|| snapshot(&mut r)));
@@ -794,10 +810,16 @@ fn make_base(cx_root: &Path, case: &Case, ci: usize, k: usize, chi: &[String]) -
         .chain(records(&case.calls, case.calls.len()))
         .filter(|(off, b)| (*off as i64) + (b.len() as i64) <= root.3)
         .collect();
+    let api_ok = if case.base.root.map(|r| (r.0, r.1, r.2, r.3, r.4)) == Some((root.0, root.1, root.2, root.3, root.4)) {
+        case.base.api_ok
+    } else {
+        commit_roots.iter().position(|r| *r == root).map_or(true, |p| !case.dangling.contains(&(p + 1)))
+    };
     Some(Base {
         root: Some(root),
         records,
         snap,
+        api_ok,
         sim: Sim { durable: img, pending: vec![], size, size_pending: None },
         prefix_lines: prefix,
     })
@@ -814,10 +836,13 @@ fn replay(rec: &mut Recorder, root: &Path, lines: &[String]) {
     let mut w: Option<SpyWriter> = None;
     let mut base = Base::default();
     let mut start = 0usize; // first call (index into the log) of the current segment
-    let view = |base: &Base, start: usize| Case {
+    let mut snaps: BTreeMap<usize, Snap> = BTreeMap::new();
+    let mut dangling: BTreeSet<usize> = BTreeSet::new();
+    let view = |base: &Base, start: usize, snaps: &BTreeMap<usize, Snap>, dangling: &BTreeSet<usize>| Case {
+        dangling: dangling.clone(),
         graph,
         calls: log.borrow()[start..].to_vec(),
-        snaps: BTreeMap::new(),
+        snaps: snaps.clone(),
         base: base.clone(),
     };
     for l in lines {
@@ -837,9 +862,41 @@ fn replay(rec: &mut Recorder, root: &Path, lines: &[String]) {
                 let heads: HeadSet = postcard::from_bytes(&b).expect("head set bytes");
                 let _ = w.as_mut().unwrap().commit(&heads, FactCacheOffset::new(t[2].parse().expect("fact")));
                 rec.line(l.clone(), show_ops(&log.borrow().last().expect("logged").ops));
+                // the oracle of a replay: the uncrashed state after this commit, read back from a
+                // copy of the file (all writes applied).  A shrunk / edited replay may contain
+                // head sets or items that dangle; then the API read-back is not demanded.
+                let case = view(&base, start, &snaps, &dangling);
+                let k = commits_done(&case.calls);
+                if case.calls.last().map_or(false, |c| c.after.is_some()) {
+                    let mut s = case.base.sim.clone();
+                    for c in &case.calls {
+                        for o in &c.ops {
+                            s.exec(o);
+                        }
+                    }
+                    let all = vec!["1".to_string(); s.pending.len()];
+                    let (img, size) = s.crash(&all, true);
+                    let vdir = fresh_dir(root, "val");
+                    {
+                        let f = fs::File::create(vdir.join(graph.to_string())).expect("image file");
+                        f.write_all_at(&img, 0).expect("write image");
+                        f.set_len(size).expect("set_len");
+                    }
+                    let fm = FileManager::new(&vdir).expect("FileManager");
+                    let mut r = Replica::new(LinearStorageProvider::new(fm), graph);
+                    match vh::catch(std::panic::AssertUnwindSafe(|| snapshot(&mut r))) {
+                        Ok(Ok(sn)) => {
+                            snaps.insert(k, sn);
+                        }
+                        _ => {
+                            rec.count("replay:dangling_commit");
+                            dangling.insert(k);
+                        }
+                    }
+                }
             }
             "crash" | "reopen" if t.len() == 3 && log.borrow().len() > start => {
-                let case = view(&base, start);
+                let case = view(&base, start, &snaps, &dangling);
                 let ci = case.calls.len() - 1;
                 let k: usize = t[1].parse().expect("k");
                 if k > case.calls[ci].ops.len() {
@@ -880,6 +937,8 @@ fn replay(rec: &mut Recorder, root: &Path, lines: &[String]) {
                             w = mgr.open(graph).ok().flatten();
                             base = b;
                             start = log.borrow().len();
+                            snaps.clear();
+                            dangling.clear();
                         }
                     }
                 }
